@@ -187,6 +187,23 @@ func (g *gctx) scalar() (string, string) {
 		}
 		return `1`, `{type: "any"}`
 	case 10:
+		if r.pct(60) {
+			// `or` over 2-3 rule-set alternatives (each becomes an unnamed type); an
+			// alternative may refer to a user type - registered, missing, of another JSON
+			// type, or the very type being defined - and fail only when it is checked
+			tpool := append([]string{"integer", "string", "float", "boolean", "@zz"}, g.names...)
+			extras := []string{`min: 0`, `minLength: 1`, `nullable: true`, `max: 10`, `maxLength: 5`, `regex: "^a"`, `precision: 1`}
+			n := 2 + r.n(2)
+			var alts []string
+			for i := 0; i < n; i++ {
+				a := `{type: "` + r.pick(tpool) + `"`
+				if r.pct(70) {
+					a += ", " + r.pick(extras)
+				}
+				alts = append(alts, a+"}")
+			}
+			return r.pick([]string{`1`, `"s"`, `5`, `true`}), `{or: [` + strings.Join(alts, ", ") + `]}`
+		}
 		// unnamed types through `or` with inline rule sets
 		return r.pick([]string{`1`, `"s"`, `5`}), r.pick([]string{
 			`{or: [{type: "integer", min: 0}, {type: "string"}]}`,
@@ -616,7 +633,78 @@ func genRegexText(r *rng) string {
 
 var allKinds = []string{"jschema", "rschema", "enum", "jsondoc", "guess"}
 
+// brokenTypeTexts: type texts that load but are rejected when the schema they are
+// registered with is compiled or checked, one per way of failing. A project with
+// two or three of them (same or different ways) asks the question C09 cares about:
+// which one is reported must not depend on map order, addresses or registration order.
+func brokenTypeText(r *rng, self string, others []string) string {
+	o := "@zz"
+	if len(others) > 0 {
+		o = r.pick(others)
+	}
+	switch r.n(14) {
+	case 0:
+		return `1 // {min: 5}`
+	case 1:
+		return `"abc" // {maxLength: 2}`
+	case 2:
+		return `1 // {or: [{type: "@zz", nullable: true}, {type: "integer"}]}`
+	case 3:
+		return `"s" // {or: [{type: "string", minLength: 1}, {type: "` + self + `", nullable: true}]}`
+	case 4:
+		return `1 // {or: [{type: "` + o + `", min: 0}, {type: "string"}]}`
+	case 5:
+		return `{ // {allOf: "@zz"}` + "\n  \"a\": 1\n}"
+	case 6:
+		return `{ // {allOf: "` + o + `"}` + "\n  \"a\": 1\n}"
+	case 7:
+		return `{` + "\n  \"a\": @zz\n}"
+	case 8:
+		return `@zz | ` + o
+	case 9:
+		return `{` + "\n  \"k\": 12 // {type: \"" + self + "\"}\n}"
+	case 10:
+		return `[` + "\n  1 // {enum: @noSuchEnum}\n]"
+	case 11:
+		return `"2021-13-45" // {type: "date"}`
+	case 12:
+		return `1.234 // {precision: 2}`
+	default:
+		return `{` + "\n  " + o + ": 1\n}"
+	}
+}
+
+func genMultiBroken(r *rng) Project {
+	p := Project{Kind: "jschema", Name: []string{"root", "schema.jst"}[r.n(2)]}
+	n := 2 + r.n(3)
+	names := namePool[:n]
+	var members []string
+	for i, name := range names {
+		var others []string
+		for j, o := range names {
+			if j != i {
+				others = append(others, o)
+			}
+		}
+		text := `"ok"`
+		if i < 2 || r.pct(60) {
+			text = brokenTypeText(r, name, others)
+		}
+		p.Types = append(p.Types, TypeSpec{Name: name, Kind: "j", Text: text})
+		members = append(members, "  \"f"+strconv.Itoa(i)+"\": "+name)
+	}
+	if r.pct(70) {
+		p.Text = "{\n" + strings.Join(members, ",\n") + "\n}"
+	} else {
+		p.Text = `"root value"` // the types are registered but not used
+	}
+	return p
+}
+
 func genProject(r *rng, tornPct int) Project {
+	if (r.focus == "" || r.focus == "jschema") && r.pct(5) {
+		return genMultiBroken(r)
+	}
 	var p Project
 	switch c := r.n(100); {
 	case c < 66:
@@ -803,11 +891,29 @@ func readOpsOf(r *rng, obj int, kind string, kinds []string, min, max int) []Op 
 			uniq = append(uniq, k)
 		}
 	}
+	// The calls the properties name carry most of the weight; the calls on the
+	// registered objects and on the internal tree are drawn less often, so that adding
+	// them did not thin out the others (seeded changes c10g and c11g were found or
+	// not depending on that). The same weights hold in every tier.
+	var weighted []string
+	for _, k := range uniq {
+		w := 3
+		switch k {
+		case "rules", "types", "inner", "ensureap", "vany":
+			w = 1
+		}
+		for ; w > 0; w-- {
+			weighted = append(weighted, k)
+		}
+	}
 	n := min + r.n(max-min+1)
+	if kind == "jschema" && r.pct(50) {
+		n += r.n(4)
+	}
 	var ops []Op
 	ex := 0
 	for i := 0; i < n; i++ {
-		k := uniq[r.n(len(uniq))]
+		k := weighted[r.n(len(weighted))]
 		if kind == "rschema" && k == "example" {
 			if ex >= maxRegexExamples {
 				continue
@@ -945,6 +1051,9 @@ func genWorldC10(seed uint64, faults bool) *World {
 					enums = append(enums, t.Name)
 				}
 				p = Project{Kind: "jschema", Name: []string{"root", "other.jst", "x"}[r.n(3)], Types: dp.Types, Rules: dp.Rules, ShareWith: d + 1}
+				if len(p.Types) > 1 && r.pct(25) {
+					p.Types = p.Types[:1+r.n(len(p.Types)-1)] // this schema registers only the first few of them
+				}
 				if len(names) == 0 {
 					names = []string{"@a"}
 				}
